@@ -141,6 +141,35 @@ pub fn gen_live(rng: &mut Rng, thorough: bool) -> J {
 pub fn gen_mix(rng: &mut Rng, _thorough: bool) -> J {
     // a sub of k >= 2 discrete leaves (or an array of them); parents pairwise different in >= 2 positions
     let k = 2 + rng.below(4) as usize;
+    if rng.chance(1, 6) {
+        // three parents at a variant node, two of them on the same alternative with different payloads: when that
+        // alternative is picked, its payloads are recombined (mixed), not one parent's copied
+        let mut foo = FxHashMap::default();
+        foo.insert("x".to_string(), Box::new(spec::Node::Bool { init: false }));
+        foo.insert("y".to_string(), Box::new(spec::Node::Bool { init: false }));
+        foo.insert("z".to_string(), Box::new(spec::Node::Bool { init: false }));
+        let mut map = FxHashMap::default();
+        map.insert("foo".to_string(), Box::new(spec::Node::Sub { map: foo }));
+        map.insert("bar".to_string(), Box::new(spec::Node::Bool { init: false }));
+        let spec = spec::Spec(spec::Node::Variant { map, init: "foo".into() });
+        let mk = |b: bool| { let mut m = FxHashMap::default(); for k in ["x", "y", "z"] { m.insert(k.to_string(), Box::new(value::Node::Bool(b))); } value::Node::Variant("foo".into(), Box::new(value::Node::Sub(m))) };
+        let mut parents = vec![value::Value(mk(false)), value::Value(mk(true)), value::Value(value::Node::Variant("bar".into(), Box::new(value::Node::Bool(true))))];
+        if rng.chance(1, 2) { parents.swap(1, 2); }
+        let refs: Vec<&value::Value> = parents.iter().collect();
+        let sp = *rng.pick(&[0.0, 0.25]);
+        let cparams = CrossoverParams { crossover_prob: 1.0, selection_pressure: sp };
+        let crossover = Crossover::new();
+        let mut outs = Vec::new();
+        for _ in 0..64 {
+            let mut path_ctx = PathContext::default();
+            for p in &parents { path_ctx.add_nodes_for(p); }
+            let mut std_rng = StdRng::seed_from_u64(rng.next());
+            let out = crossover.crossover(&spec, &refs, &cparams, &mut path_ctx, &mut std_rng);
+            outs.push(enc_value(&out.0));
+        }
+        return json!({"mode": "mix", "variantPayload": true, "spec": enc_spec(&spec.0), "parents": parents.iter().map(|p| enc_value(&p.0)).collect::<Vec<_>>(),
+                      "sp": crate::ops::pclass(sp), "outs": outs});
+    }
     if rng.chance(1, 4) {
         // a variant root whose parents carry different alternatives: the offspring's alternative is chosen by rank
         // selection with the SELECTION PRESSURE, so below pressure 1 it is not always the first parent's
@@ -339,6 +368,37 @@ pub fn gen_bench(case: u64) -> J {
 
 // ------------------------------------------------------------------------------------------------ twin runs (C09)
 
+/// a variant with many options (which option a switch lands on must not depend on the parse), subs with many members
+/// (their order must not depend on the parse), many optionals that start absent (what is materialised must come from
+/// THIS spec)
+fn big_specs() -> Vec<String> {
+    let mut v = Vec::new();
+    let mut s = String::from("type: variant\ninit: o0\n");
+    for i in 0..8 { s += &format!("o{i}:\n  type: {}\n", match i % 3 { 0 => "bool\n  init: true", 1 => "int\n  init: 1\n  scale: 2", _ => "real\n  init: 0.5\n  scale: 0.5" }); }
+    v.push(s);
+    let mut s = String::new();
+    for g in ["left", "right"] {
+        s += &format!("{g}:\n  type: sub\n");
+        for i in 0..24 { s += &format!("  m{i}:\n    type: {}\n", if i % 2 == 0 { "bool\n    init: false".to_string() } else { format!("int\n    init: {i}\n    scale: 3") }); }
+    }
+    v.push(s);
+    let mut s = String::new();
+    for i in 0..16 { s += &format!("p{i}:\n  type: optional\n  initPresent: false\n  valueType:\n    type: real\n    init: 0.{}\n    scale: 0.1\n    min: 0\n    max: 1\n", i + 1); }
+    v.push(s);
+    let mut s = String::new();
+    for i in 0..16 { s += &format!("p{i}:\n  type: optional\n  initPresent: false\n  valueType:\n    type: int\n    init: {}\n    scale: 5\n    min: 40\n    max: 90\n", 50 + i); }
+    v.push(s);
+    v
+}
+
+fn twin_spec(idx: usize) -> String {
+    let big = big_specs();
+    let n = TWIN_SPECS.len() + big.len();
+    let i = idx % n;
+    if i < TWIN_SPECS.len() { TWIN_SPECS[i].to_string() } else { big[i - TWIN_SPECS.len()].clone() }
+}
+pub fn n_twin_specs() -> usize { TWIN_SPECS.len() + 4 }
+
 const TWIN_SPECS: &[&str] = &[
     "x:\n  type: real\n  init: 1.0\n  scale: 1.0\ny:\n  type: real\n  init: -2.0\n  scale: 0.5\n  min: -5\n  max: 5\n",
     "type: anon map\ninitSize: 3\nminSize: 1\nmaxSize: 9\nvalueType:\n  a:\n    type: int\n    init: 3\n    scale: 2\n  b:\n    type: optional\n    initPresent: true\n    valueType:\n      type: enum\n      values: [u, v, w]\n      init: u\n",
@@ -359,7 +419,8 @@ fn f_hash(v: &J, _s: f64) -> f64 {
 }
 
 pub fn twin_trace(spec_idx: usize, nc: usize, sample_size: usize, yields: u64, budget: usize, with_guess: bool) -> J {
-    let spec_yaml = TWIN_SPECS[spec_idx % TWIN_SPECS.len()];
+    let spec_yaml = twin_spec(spec_idx);
+    let spec_yaml = spec_yaml.as_str();
     let guess = if with_guess { Some(spec_util::from_yaml_str(spec_yaml).unwrap().initial_value().to_json()) } else { None };
     let (log, res) = run_once(spec_yaml, f_hash, 1.0, nc, sample_size, yields, budget, guess);
     json!({
@@ -369,12 +430,15 @@ pub fn twin_trace(spec_idx: usize, nc: usize, sample_size: usize, yields: u64, b
 }
 
 pub fn gen_twin(rng: &mut Rng, thorough: bool, exe: &str) -> J {
-    let spec_idx = rng.below(TWIN_SPECS.len() as u64) as usize;
+    let spec_idx = rng.below(n_twin_specs() as u64) as usize;
     let nc = *rng.pick(&[1usize, 1, 2, 4, 7]);
     let sample_size = *rng.pick(&[1usize, 1, 2, 3]);
     let yields = if nc == 1 { 0 } else { *rng.pick(&[0u64, 3, 5]) };
     let budget = if thorough { 500 + rng.below(3000) as usize } else { 100 + rng.below(500) as usize };
     let with_guess = rng.chance(1, 4);
+    // before the first run, this thread runs something else (other specs): a run is a function of ITS inputs, not of what
+    // the thread or the process did before (the fresh process below has done nothing before)
+    for k in 1..4 { let _ = twin_trace(spec_idx + k * 3 + 1, 1, 1, 0, 40, false); }
     let a = twin_trace(spec_idx, nc, sample_size, yields, budget, with_guess);
     let b = twin_trace(spec_idx, nc, sample_size, yields, budget, with_guess);
     // third run: a fresh process
